@@ -142,15 +142,32 @@ def tag_is(x, cls):
     return BoolV(z3.Or(*gs) if gs else z3.BoolVal(False))
 
 
+def _sample_dfa(rng):
+    return {'self.cycle': rng.randint(-1, 4), 'self.final': rng.randint(-1, 4), 'self._terminal': rng.random() < 0.6, 'self.current.terminal': rng.random() < 0.6}
+
+
+def _run_dfa(which):
+    def run(vals):
+        import cpppo
+        d = cpppo.dfa('d', initial=cpppo.state('s', terminal=vals['self.current.terminal']), terminal=vals['self._terminal'])
+        d.cycle, d.final = vals['self.cycle'], vals['self.final']
+        try:
+            return ('return', d.loop() if which == 'loop' else d.terminal)
+        except Exception as e:
+            return ('raise', type(e).__name__)
+    return run
+
+
 def repeat_specs():
     loop = Spec('dfa_base.loop', (F, 'dfa_base.loop'), params={}, fields=DFA_FIELDS, cls_name='dfa_base',
-                ensures=[('cycles remain exactly while fewer than `final` were run', 'result == (self.cycle < self.final)')], raises={}, modifies=[], returns='Bool',
+                ensures=[('cycles remain exactly while fewer than `final` were run', 'result == (self.cycle < self.final)')], raises={}, modifies=[], returns='Bool', hints=dict(sample=_sample_dfa, concrete=_run_dfa('loop')),
                 note='whole function')
     term = Spec('dfa_base.terminal', (F, 'dfa_base.terminal'), params={}, fields=DFA_FIELDS, cls_name='dfa_base',
                 ensures=[('terminal only when all repeat cycles were run', 'implies(result, self.cycle >= self.final)'),
                          ('exactly: marked terminal, sub-machine terminal, no cycle left',
                           'result == (self._terminal and self.current.terminal and self.cycle >= self.final)')],
-                raises={}, modifies=[], callees={'dfa_base.loop': loop, 'loop': loop}, note='whole property getter')
+                raises={}, modifies=[], callees={'dfa_base.loop': loop, 'loop': loop}, hints=dict(sample=_sample_dfa, concrete=_run_dfa('terminal')),
+                note='whole property getter')
     pre = Spec('dfa_base.delegate[repeat -> final]', (F, 'dfa_base.delegate'), params={}, fragment=frag_repeat_prefix,
                fields=dict(DFA_FIELDS, repeat=('Union', ['None', 'Int', 'Str'])), cls_name='dfa',
                hints=dict(locals={'path': 'Str', 'data': lambda eng, name, st: (OpaqueV(z3.Const('_g_data', USort), 'data'), st)},
